@@ -171,6 +171,15 @@ func (o *Oracle) Check(step int, prev, cur *Dump, failed bool) []Fail {
 					if !ix[s.Index] {
 						add("dangling-index", "db", db.Key, "rp", rp.Key, "sg", u(g.ID), "shard", u(s.ID), "index", u(s.Index))
 					}
+					// the index group holding the shard's index does not end before the shard's group (the C14 clause)
+					for _, ig := range rp.IGs {
+						for _, x := range ig.Indexes {
+							if x.ID == s.Index && nsBig(ig.End).Cmp(nsBig(g.End)) < 0 {
+								add("index-ends-early", "db", db.Key, "rp", rp.Key, "sg", u(g.ID), "shard", u(s.ID), "ig", u(ig.ID),
+									"sg_end", g.End, "ig_end", ig.End)
+							}
+						}
+					}
 					if len(s.Owners) == 0 {
 						add("dangling-owner", "db", db.Key, "rp", rp.Key, "shard", u(s.ID), "pt", "none")
 					}
